@@ -97,9 +97,11 @@ Fixpoint spec_go (t : table) (steps : list (tstmt * tobs)) : bool :=
 Definition spec_ok (c : case) : bool := match c with Twin steps => spec_go [] steps end.
 
 (* ------------------------------------------------------------------ known classes *)
-(* classes of queries: Model/IndexTwin.v q_class (1..3), evaluated in the model state;
-   10 = a DELETE / UPDATE whose row selection includes a tombstoned entry (C05's defect: the
-   deleted row is deleted again / comes back), on either table *)
+(* classes of queries: Model/IndexTwin.v q_class, evaluated in the model state; open: 1 (a scan
+   fetches a tombstoned entry: CREATE INDEX back-fills tombstones) and 3 (residual filter);
+   repaired and never reported on the current model: 2, 4 (the index is exact for the live rows
+   after DELETE / UPDATE / back-fill) and 10 = a DELETE / UPDATE whose row selection includes a
+   tombstoned entry (select_rows skips tombstones since 6de60fd, so dml_class is constantly 0) *)
 Definition dml_class (a : astate) (b : dstate) (s : tstmt) : Z :=
   match s with
   | TDel w =>
